@@ -160,6 +160,21 @@ class Ser(Stub):
     def __ne__(self, o): return self._cmp(o, lambda a, b: a != b)
     __hash__ = None  # type: ignore
 
+    # the method spellings of the operators (Series.le(x) is Series <= x, Series.div(x) is Series / x, ...)
+    def le(self, o): return self <= o
+    def lt(self, o): return self < o
+    def ge(self, o): return self >= o
+    def gt(self, o): return self > o
+    def eq(self, o): return self == o
+    def ne(self, o): return self != o
+    def add(self, o): return self + o
+    def sub(self, o): return self - o
+    def mul(self, o): return self * o
+    def div(self, o): return self / o
+    truediv = divide = div
+    multiply = mul
+    subtract = sub
+
     # ---- selection / alignment
     def __getitem__(self, k):
         if isinstance(k, Mask):
